@@ -17,3 +17,14 @@ for v2 in (0, 1):
         OBLIGATIONS.append(Ob('C02.bank.hdr.%s.%s' % ('v2' if v2 else 'v1', nm), 'C02', 'c/wopn_bank.c', entry='harness_load', defines=d, unwind=130,
                               desc='WOPN_LoadBankFromMem on a header-only image (exact-size block, symbolic version code/flags), full or truncated: defined outcome, no over-read',
                               bounds='bank counts 0/0'))
+
+from obligations.common import *
+UFN = dict(INIT_UNWIND)
+UFN.update({'_ZN4OPN26noteOnEmd': 32, 'sym_timbre': 40, '_ZL5setup': 40})
+for tone in (-40000, -40, 35, 140, 300, 13000, 40000):
+    OBLIGATIONS.append(Ob('C02.noteOn.t%d' % tone, 'C02', 'ir/c10_noteon.cpp', engine='ir', entry='harness_safe', defines=['TONE=%d' % tone],
+                          unwind=20, unwind_funcs=UFN, repo_tus=PLAYER_TUS, ir_opts=player_ir_opts(), backend='kissat', termination=True,
+                          tiers=('quick', 'thorough') if tone in (35, 300, 13000) else ('thorough',), timeout={'quick': 900, 'thorough': 2400},
+                          desc='OPN2::noteOn with arbitrary timbre at tone %d (every value of the exp enclosure): register indices in range, octave/multiplier search terminates within 32 iterations' % tone,
+                          bounds='tone %d; tones between the listed ones share their exp enclosures; finite results above 1e11 are outside the bound' % tone,
+                          stubs=PLAYER_STUBS + ['exp(): enclosure stub, +inf above 709.79']))
